@@ -45,7 +45,9 @@ Record Inv (s : st) : Prop := mkInv {
   i_tabs : width s <= 8 * zlen (tabstops s);
   i_attr : oattr_ok (attrspec s);
   i_sattr : match saved_attrs s with Some (a, _) => oattr_ok a | None => True end;
-  i_ev : Forall wf_event (events s) }.
+  i_ev : Forall wf_event (events s);
+  (* origin mode keeps the cursor between the margins (set_term_cursor constrains it there) *)
+  i_org : m_constrain (modes s) = true -> sr_start s <= snd (cur s) <= sr_end s }.
 
 (* the scrollback only ever grows at its end (and loses its oldest lines at the deque's maxlen) *)
 Definition sb_push (b : list row) (r : row) : list row :=
@@ -103,16 +105,18 @@ Lemma Inv_ext s s' :
   width s' = width s -> height s' = height s -> term s' = term s -> cur s' = cur s -> cursor s' = cursor s ->
   sup s' = sup s -> sr_start s' = sr_start s -> sr_end s' = sr_end s -> tabstops s' = tabstops s ->
   attrspec s' = attrspec s -> saved_attrs s' = saved_attrs s -> events s' = events s -> sb s' = sb s ->
+  m_constrain (modes s') = m_constrain (modes s) ->
   Inv s -> Inv s'.
 Proof.
-  intros E1 E2 E3 E4 E5 E6 E7 E8 E9 E10 E11 E12 E13 [].
-  constructor; rewrite ?E1, ?E2, ?E3, ?E4, ?E5, ?E6, ?E7, ?E8, ?E9, ?E10, ?E11, ?E12, ?E13; assumption.
+  intros E1 E2 E3 E4 E5 E6 E7 E8 E9 E10 E11 E12 E13 E14 [].
+  constructor; rewrite ?E1, ?E2, ?E3, ?E4, ?E5, ?E6, ?E7, ?E8, ?E9, ?E10, ?E11, ?E12, ?E13, ?E14; assumption.
 Qed.
 
 Lemma K_ext s s' :
   width s' = width s -> height s' = height s -> term s' = term s -> cur s' = cur s -> cursor s' = cursor s ->
   sup s' = sup s -> sr_start s' = sr_start s -> sr_end s' = sr_end s -> tabstops s' = tabstops s ->
   attrspec s' = attrspec s -> saved_attrs s' = saved_attrs s -> events s' = events s -> sb s' = sb s ->
+  m_constrain (modes s') = m_constrain (modes s) ->
   Inv s -> K s s'.
 Proof.
   intros. k_split; auto. - eapply Inv_ext; eauto. - replace (sb s') with (sb s). constructor.
@@ -127,10 +131,11 @@ Ltac split_ifs :=
 (* ---------- cursor ---------- *)
 Lemma constrain_range s x y ign :
   1 <= width s -> 1 <= height s -> 0 <= sr_start s /\ sr_start s <= sr_end s /\ sr_end s < height s ->
-  0 <= fst (constrain s x y ign) < width s /\ 0 <= snd (constrain s x y ign) < height s.
+  0 <= fst (constrain s x y ign) < width s /\ 0 <= snd (constrain s x y ign) < height s /\
+  (ign = 0 -> m_constrain (modes s) = true -> sr_start s <= snd (constrain s x y ign) <= sr_end s).
 Proof.
   intros Hw Hh Hr. unfold constrain, constrain_coords_gen. cbv zeta.
-  split_ifs; cbn [fst snd]; lia.
+  split_ifs; cbn [fst snd]; repeat split; try lia; intros -> Hm; rewrite Hm in *; cbn in *; try discriminate; lia.
 Qed.
 
 Lemma set_term_cursor_K s x y : Inv s -> K s (set_term_cursor s x y).
@@ -146,6 +151,50 @@ Proof.
     destruct I1. constructor; cbn in *; auto. lia.
   - k_split; try reflexivity; [|constructor].
     destruct I1. constructor; cbn in *; auto.
+Qed.
+
+(* the part of the invariant that resize re-establishes before it repositions the cursor and extends the tab stops *)
+Record Core (s : st) : Prop := mkCore {
+  c_w : 1 <= width s;
+  c_h : 1 <= height s;
+  c_rows : zlen (term s) = height s;
+  c_cols : Forall (fun r : row => zlen r = width s) (term s);
+  c_reg : 0 <= sr_start s /\ sr_start s <= sr_end s /\ sr_end s < height s;
+  c_sup : 0 <= sup s <= zlen (sb s);
+  c_attr : oattr_ok (attrspec s);
+  c_sattr : match saved_attrs s with Some (a, _) => oattr_ok a | None => True end;
+  c_ev : Forall wf_event (events s) }.
+
+Lemma set_term_cursor_wh s x y :
+  (width (set_term_cursor s x y), height (set_term_cursor s x y)) = (width s, height s).
+Proof.
+  unfold set_term_cursor. destruct (constrain s x y 0).
+  match goal with |- context [if ?b then _ else _] => destruct b end; reflexivity.
+Qed.
+
+Lemma set_term_cursor_core s x y : Core s -> width s <= 8 * zlen (tabstops s) -> Inv (set_term_cursor s x y).
+Proof.
+  intros C T. unfold set_term_cursor.
+  pose proof (constrain_range s x y 0 (c_w s C) (c_h s C) (c_reg s C)) as Hc.
+  destruct (constrain s x y 0) as [x1 y1]. cbn [fst snd] in *.
+  match goal with |- context [if ?b then _ else _] => destruct b eqn:Cb end;
+    destruct C; constructor; cbn in *; auto; try lia.
+Qed.
+
+Lemma set_term_cursor_sb s x y : sb (set_term_cursor s x y) = sb s.
+Proof.
+  unfold set_term_cursor. destruct (constrain s x y 0).
+  match goal with |- context [if ?b then _ else _] => destruct b end; reflexivity.
+Qed.
+
+(* the cursor is repositioned right after the margins / the origin mode changed *)
+Lemma stc_from_core s s1 x y :
+  Core s1 -> width s1 <= 8 * zlen (tabstops s1) -> width s1 = width s -> height s1 = height s -> sb s1 = sb s ->
+  K s (set_term_cursor s1 x y).
+Proof.
+  intros C T W H S. pose proof (set_term_cursor_wh s1 x y) as Q. injection Q as Qw Qh.
+  k_split; [apply set_term_cursor_core; assumption|congruence|congruence|].
+  rewrite set_term_cursor_sb, S. constructor.
 Qed.
 
 Lemma set_term_cursor_here_K s : Inv s -> K s (set_term_cursor_here s).
@@ -330,9 +379,9 @@ Qed.
 Lemma erase_Keeps s p q : Inv s -> Keeps s (erase s p q).
 Proof.
   intros I. unfold erase.
-  pose proof (constrain_range s (fst p) (snd p) 0 (i_w s I) (i_h s I) (i_reg s I)) as Hp.
-  pose proof (constrain_range s (fst q) (snd q) 0 (i_w s I) (i_h s I) (i_reg s I)) as Hq.
-  destruct (constrain s (fst p) (snd p) 0) as [sx sy]. destruct (constrain s (fst q) (snd q) 0) as [ex ey].
+  pose proof (constrain_range s (fst p) (snd p) 1 (i_w s I) (i_h s I) (i_reg s I)) as Hp.
+  pose proof (constrain_range s (fst q) (snd q) 1 (i_w s I) (i_h s I) (i_reg s I)) as Hq.
+  destruct (constrain s (fst p) (snd p) 1) as [sx sy]. destruct (constrain s (fst q) (snd q) 1) as [ex ey].
   cbn [fst snd] in *. destruct (sy =? ey) eqn:C.
   - apply set_cells_Keeps; auto; ulia.
   - destruct (Z_le_gt_dec sy ey).
@@ -367,8 +416,11 @@ Proof.
 Qed.
 
 (* ---------- simple field updates ---------- *)
-Lemma with_modes_K s m : Inv s -> K s (with_modes s m).
-Proof. intros. k_ext. Qed.
+Lemma with_modes_K s m : Inv s -> (m_constrain m = true -> m_constrain (modes s) = true) -> K s (with_modes s m).
+Proof.
+  intros I Hm. k_split; try reflexivity; [|constructor]. destruct I. constructor; cbn; auto.
+Qed.
+Ltac modes_same := cbn; intros; (assumption || discriminate).
 Lemma with_cset_K s c : Inv s -> K s (with_cset s c).
 Proof. intros. k_ext. Qed.
 Lemma with_rotten_K s b : Inv s -> K s (with_rotten s b).
@@ -611,7 +663,7 @@ Proof.
   rewrite Efb. cbn [bind].
   destruct (mk_attrspec_ok (fst fb) (snd fb) (g_colors g) (g_bold g) (g_ul g) (g_blink g) (g_so g) G1 F1 F2) as (a & E & A).
   rewrite E. cbn [bind]. eexists _, _. split; [reflexivity|]. split; [|assumption].
-  eapply K_trans; [apply with_cset_K; eassumption|]. apply with_modes_K. apply with_cset_K. assumption.
+  eapply K_trans; [apply with_cset_K; eassumption|]. apply with_modes_K; [apply with_cset_K; assumption|modes_same].
 Qed.
 
 Lemma reverse_attrspec_ok a u : oattr_ok a -> attr_ok (reverse_attrspec a u).
@@ -668,21 +720,23 @@ Lemma set_mode_Keeps s mode flag q : Inv s -> Keeps s (set_mode s mode flag q).
 Proof.
   intros I. unfold set_mode. cbv zeta.
   destruct q.
-  - destruct (mode =? 1); [apply with_modes_K; assumption|].
+  - destruct (mode =? 1); [apply with_modes_K; [assumption|modes_same]|].
     destruct (mode =? 3); [apply clear_K; assumption|].
     destruct (mode =? 5).
     { apply Keeps_bind.
       - destruct (Bool.eqb (m_reverse_video (modes s)) flag); [apply K_refl; assumption|apply reverse_video_Keeps; assumption].
-      - intros s1 (I1 & _). apply with_modes_K. assumption. }
+      - intros s1 (I1 & _). apply with_modes_K; [assumption|modes_same]. }
     destruct (mode =? 6).
-    { cbn [Keeps]. eapply K_trans; [apply with_modes_K; eassumption|]. apply set_term_cursor_unrotten_K. apply with_modes_K. assumption. }
-    destruct (mode =? 7); [apply with_modes_K; assumption|].
+    { cbn [Keeps]. apply stc_from_core; try reflexivity; [|apply (i_tabs s I)].
+      destruct I. constructor; cbn; auto. }
+    destruct (mode =? 7); [apply with_modes_K; [assumption|modes_same]|].
     destruct (mode =? 25).
-    { cbn [Keeps]. eapply K_trans; [apply with_modes_K; eassumption|]. apply set_term_cursor_here_K. apply with_modes_K. assumption. }
-    destruct (mode =? 2004); [apply with_modes_K; assumption|]. apply K_refl. assumption.
-  - destruct (mode =? 3); [apply with_modes_K; assumption|].
-    destruct (mode =? 4); [apply with_modes_K; assumption|].
-    destruct (mode =? 20); [apply with_modes_K; assumption|]. apply K_refl. assumption.
+    { cbn [Keeps]. assert (K s (with_modes s (set_m_visible (modes s) flag))) as Kv by (apply with_modes_K; [assumption|modes_same]).
+      eapply K_trans; [exact Kv|]. apply set_term_cursor_here_K. apply Kv. }
+    destruct (mode =? 2004); [apply with_modes_K; [assumption|modes_same]|]. apply K_refl. assumption.
+  - destruct (mode =? 3); [apply with_modes_K; [assumption|modes_same]|].
+    destruct (mode =? 4); [apply with_modes_K; [assumption|modes_same]|].
+    destruct (mode =? 20); [apply with_modes_K; [assumption|modes_same]|]. apply K_refl. assumption.
 Qed.
 
 Lemma csi_set_modes_Keeps ms : forall s q r, Inv s -> Keeps s (csi_set_modes s ms q r).
@@ -706,12 +760,9 @@ Proof.
   destruct ((t <? b) && (b <=? height s)) eqn:C; [|apply K_refl; assumption].
   set (s1 := with_sr_start s (snd (constrain s 0 (t - 1) 1))).
   set (s2 := with_sr_end s1 (snd (constrain s1 0 (b - 1) 1))).
-  assert (K s s2) as K2.
-  { k_split; try reflexivity; [|constructor].
-    subst s2. rewrite constrain_ign. subst s1. rewrite constrain_ign.
-    pose proof (i_h s I). destruct I. constructor; cbn; auto.
-    split_ifs; lia. }
-  eapply K_trans; [exact K2|]. apply set_term_cursor_unrotten_K. apply K2.
+  apply stc_from_core; try reflexivity; [|apply (i_tabs s I)].
+  subst s2 s1. rewrite !constrain_ign. cbn [height with_sr_start]. pose proof (i_h s I). destruct I. constructor; cbn; auto.
+  split_ifs; lia.
 Qed.
 
 Lemma csi_clear_tabstop_Keeps s mode : Inv s -> Keeps s (csi_clear_tabstop s mode).
@@ -726,7 +777,9 @@ Proof.
   intros I. unfold csi_status_report. pose proof (i_cx s I). pose proof (i_cy s I).
   destruct (mode =? 5); [apply respond_K; [assumption|right; left; reflexivity]|].
   destruct (mode =? 6); [|apply K_refl; assumption].
-  apply respond_K; [assumption|]. right; right. exists (snd (cur s) + 1), (fst (cur s) + 1). repeat split; lia.
+  cbv zeta. pose proof (i_org s I) as Ho. pose proof (i_reg s I).
+  apply respond_K; [assumption|]. right; right. eexists _, _. split; [|split; [|reflexivity]]; [|lia].
+  destruct (m_constrain (modes s)); [specialize (Ho eq_refl)|]; lia.
 Qed.
 
 Lemma csi_erase_line_Keeps s mode : Inv s -> Keeps s (csi_erase_line s mode).
@@ -814,7 +867,7 @@ Qed.
 Lemma reset_scroll_K s : Inv s -> K s (reset_scroll s).
 Proof.
   intros I. unfold reset_scroll. k_split; try reflexivity; [|constructor].
-  destruct I. constructor; cbn; auto. lia.
+  destruct I. constructor; cbn; auto; try lia.
 Qed.
 
 Lemma with_saved_attrs_none_K s : Inv s -> K s (with_saved_attrs s None).
@@ -832,7 +885,7 @@ Lemma reset_K s : Inv s -> K s (reset s).
 Proof.
   intros I. unfold reset. cbv zeta.
   eapply K_step; [|intros; apply clear_K; assumption].
-  eapply K_step; [|intros; apply with_modes_K; assumption].
+  eapply K_step; [|intros; apply with_modes_K; [assumption|modes_same]].
   eapply K_step; [|intros; apply init_tabstops_K; assumption].
   eapply K_step; [|intros; apply reset_scroll_K; assumption].
   eapply K_step; [|intros; apply with_rotten_K; assumption].
@@ -948,8 +1001,8 @@ Proof.
   intros I. unfold parse_noncsi. pose proof (i_cx s I).
   destruct (list_eqb md [35] && is1 ch 56); [apply decaln_Keeps; assumption|].
   destruct (list_eqb md [37]).
-  { destruct (is1 ch 64); [apply with_modes_K; assumption|].
-    destruct (in1 ch [71; 56]); [apply with_modes_K; assumption|apply K_refl; assumption]. }
+  { destruct (is1 ch 64); [apply with_modes_K; [assumption|modes_same]|].
+    destruct (in1 ch [71; 56]); [apply with_modes_K; [assumption|modes_same]|apply K_refl; assumption]. }
   destruct (list_eqb md [40] || list_eqb md [41]); [apply set_g01_K; assumption|].
   destruct (is1 ch 77); [apply linefeed_Keeps; assumption|].
   destruct (is1 ch 68); [apply linefeed_Keeps; assumption|].
@@ -1052,17 +1105,6 @@ Proof.
 Qed.
 
 (* ---------- resize ---------- *)
-(* the part of the invariant that resize re-establishes before it repositions the cursor and extends the tab stops *)
-Record Core (s : st) : Prop := mkCore {
-  c_w : 1 <= width s;
-  c_h : 1 <= height s;
-  c_rows : zlen (term s) = height s;
-  c_cols : Forall (fun r : row => zlen r = width s) (term s);
-  c_reg : 0 <= sr_start s /\ sr_start s <= sr_end s /\ sr_end s < height s;
-  c_sup : 0 <= sup s <= zlen (sb s);
-  c_attr : oattr_ok (attrspec s);
-  c_sattr : match saved_attrs s with Some (a, _) => oattr_ok a | None => True end;
-  c_ev : Forall wf_event (events s) }.
 
 Lemma resize_finish s x y :
   Core s ->
@@ -1128,12 +1170,6 @@ Lemma init_tabstops_wh s e :
   (width (init_tabstops s e), height (init_tabstops s e)) = (width s, height s).
 Proof. unfold init_tabstops. cbv zeta. destruct e; reflexivity. Qed.
 
-Lemma set_term_cursor_wh s x y :
-  (width (set_term_cursor s x y), height (set_term_cursor s x y)) = (width s, height s).
-Proof.
-  unfold set_term_cursor. destruct (constrain s x y 0).
-  match goal with |- context [if ?b then _ else _] => destruct b end; reflexivity.
-Qed.
 
 Lemma resize_Safe s w h :
   Inv s -> 1 <= w -> 1 <= h -> exists s', resize s w h = Ok s' /\ Inv s' /\ width s' = w /\ height s' = h.
@@ -1210,14 +1246,6 @@ Proof.
   eapply K_trans; [exact K1|]. apply set_term_cursor_here_K. apply K1.
 Qed.
 
-Lemma set_term_cursor_core s x y : Core s -> width s <= 8 * zlen (tabstops s) -> Inv (set_term_cursor s x y).
-Proof.
-  intros C T. unfold set_term_cursor.
-  pose proof (constrain_range s x y 0 (c_w s C) (c_h s C) (c_reg s C)) as Hc.
-  destruct (constrain s x y 0) as [x1 y1]. cbn [fst snd] in *.
-  match goal with |- context [if ?b then _ else _] => destruct b eqn:Cb end;
-    destruct C; constructor; cbn in *; auto; try lia.
-Qed.
 
 Ltac proj_simpl := cbn [width height term cur cursor has_focus sb sup u8eat u8buf escbuf inesc pstate attrspec cset saved_cur saved_attrs rotten sr_start sr_end tabstops modes events enc with_width with_height with_term with_cur with_cursor with_has_focus with_sb with_sup with_u8eat with_u8buf with_escbuf with_inesc with_pstate with_attrspec with_cset with_saved_cur with_saved_attrs with_rotten with_sr_start with_sr_end with_tabstops with_modes with_events with_enc reset_scroll init_tabstops].
 
